@@ -240,3 +240,15 @@ Theorem C11_layout_greedy_option_sensitive :
     /\ Pem.LayoutRel.gap_safe_b g = false.
 Proof. exact Pem.LayoutEx.layout_greedy_option_sensitive. Qed.
 Print Assumptions C11_layout_greedy_option_sensitive.
+
+(** The property's layout perturbations are alignments: at one site a run of free gap tokens is replaced
+    by another whose last token has the same class (whitespace run -> other whitespace/newlines, a doubled
+    blank line, a comment inserted inside whitespace, an inline comment before a newline); several sites at
+    once are a block list with several such blocks. *)
+Theorem C11_layout_one_site : forall g pre post w x w' x',
+  Forall (Pem.LayoutRel.okgap g) (w ++ [x]) -> Forall (Pem.LayoutRel.okgap g) (w' ++ [x']) ->
+  Pem.LayoutRel.wsn g x = Pem.LayoutRel.wsn g x' ->
+  exists bs, Forall (Pem.LayoutInv.blk_ok g) bs
+             /\ Pem.LayoutInv.lleft bs = pre ++ (w ++ [x]) ++ post /\ Pem.LayoutInv.lright bs = pre ++ (w' ++ [x']) ++ post.
+Proof. exact Pem.LayoutInv.layout_one_site. Qed.
+Print Assumptions C11_layout_one_site.
